@@ -472,6 +472,10 @@ class C03(Prop):
     def term(self, ctx, case, out):
         if not isinstance(out, dict) or "desc" not in out or len(out["desc"]) != 1 or out["desc"][0]["hir"] is None:
             return (False, False, 0)
+        if len(out["desc"][0]["literals"]) > 4000:
+            # the description does not fit in one Gallina term (coqc overflows its stack): not evaluated
+            ctx.count("not_evaluated_too_many_literals")
+            return (True, True, 0)
         outs = []
         for s in out["scans"]:
             if not isinstance(s, dict) or "rules" not in s or s.get("error"):
